@@ -8,6 +8,7 @@ from engine.cfg import CFG
 from engine.dataflow import ReachingDefs
 from engine.index import AnalysisError, FuncInfo, calls_in, const_str, kwarg, unparse, walk_no_nested
 from rules.common import BILLING_DATA, DAILY_DATA
+from engine.pattern import PatCtx, make_resolver
 from rules.kinds import DPU, as_freq_branches, frame_kind, mask_terms, rescale_sites
 
 FEAT = "opendsm.eemeter.common.features"
@@ -17,11 +18,21 @@ def _analyse_sibling(chk, r1, r2, r3, f: FuncInfo, br) -> Dict[str, object]:
     cfg = CFG(f.node)
     rd = ReachingDefs(f.node, cfg)
     shape: Dict[str, object] = {}
+    pc = PatCtx(f.node)
+    res, stmt_of = make_resolver(f.node)
+    params = [p for p in f.params if p != "self"]
+    if len(params) < 2:
+        raise AnalysisError(f"{f.qualname}: expected (df, meter_index) parameters")
+    DF, MI = params[0], params[1]
+    if not pc.has(f"_TS_ = {DF}['temperature']"):
+        raise AnalysisError(f"{f.qualname}: the temperature series is no longer taken as {DF}['temperature']")
+    TS = pc.name("_TS_")
     # ---- R09.1: the temperature frame comes from the instantaneous (mean) branch and is never divided by coverage
+    ok = pc.has("_TF_ = as_freq(_TS_, 'D', series_type='instantaneous', include_coverage=True)")
     calls = [c for c in calls_in(f.node) if unparse(c.func) == "as_freq"]
-    ok = len(calls) == 1 and const_str(kwarg(calls[0], "series_type")) == "instantaneous" and unparse(calls[0].args[1]) == "'D'" and unparse(kwarg(calls[0], "include_coverage")) == "True"
-    r1.require(ok, f"{f.key}|as_freq-instantaneous-daily", f.where(calls[0]) if calls else f.where(),
+    r1.require(ok and len(calls) == 1, f"{f.key}|as_freq-instantaneous-daily", f.where(calls[0]) if calls else f.where(),
                f"{f.qualname}: sub-daily temperature must be aggregated with as_freq(..., 'D', series_type='instantaneous', include_coverage=True) (a mean, not a sum)")
+    TF = pc.name("_TF_", "temperature_features")
     sites = rescale_sites(chk, f)
     for s, base in sites:
         kinds = frame_kind(chk, f, s, base, br)
@@ -32,33 +43,34 @@ def _analyse_sibling(chk, r1, r2, r3, f: FuncInfo, br) -> Dict[str, object]:
     # ---- R09.3 (a) non-hourly route: keep coverage > 0.5, warn on <= 0.5
     masks = set()
     for n in ast.walk(f.node):
-        if isinstance(n, ast.Subscript) and "temperature_features" in unparse(n.value):
+        if isinstance(n, ast.Subscript) and unparse(n.value) in (TF, TF + ".loc"):
             sl = n.slice.elts[0] if isinstance(n.slice, ast.Tuple) else n.slice
-            m = mask_terms(sl)
+            m = mask_terms(sl, res, stmt_of(n))
             if m is not None and any("coverage" in t[0] for t in m[1]):
-                masks.add(tuple(sorted(m[1])))
-    r3.require(masks == {(("temperature_features.coverage", "<=", 0.5),), (("temperature_features.coverage", ">", 0.5),)}, f"{f.key}|coverage-masks", f.where(),
+                masks.add(tuple(sorted((t[0].replace(TF + ".", "F."), t[1], t[2]) for t in m[1])))
+    r3.require(masks == {(("F.coverage", "<=", 0.5),), (("F.coverage", ">", 0.5),)}, f"{f.key}|coverage-masks", f.where(),
                f"{f.qualname}: a day with half or fewer of its readings must be missing: masks must be coverage > 0.5 (keep) and coverage <= 0.5 (warn); found {sorted(masks)}", sample={"masks": sorted(map(str, masks))})
-    keep = [s for s in cfg.stmts() if isinstance(s, ast.Assign) and unparse(s.targets[0]) == "temperature_features" and ".reindex(temperature_features.index)" in unparse(s.value) and "coverage > 0.5" in unparse(s.value)]
-    r3.require(len(keep) == 1 and "rename(columns={'value': 'temperature_mean'})" in unparse(keep[0].value), f"{f.key}|blank-low-coverage-days", f.where(),
+    keep_ok = any(pc.has(p_, bind=False) for p_ in (
+        "_TF_ = _TF_[_TF_.coverage > 0.5].reindex(_TF_.index)[['value']].rename(columns={'value': 'temperature_mean'})",
+        "_TF_ = _TF_.loc[_TF_.coverage > 0.5].reindex(_TF_.index)[['value']].rename(columns={'value': 'temperature_mean'})",
+        "_TF_ = _TF_[_TF_['coverage'] > 0.5].reindex(_TF_.index)[['value']].rename(columns={'value': 'temperature_mean'})"))
+    r3.require(keep_ok, f"{f.key}|blank-low-coverage-days", f.where(),
                f"{f.qualname}: low-coverage days must be blanked by selecting coverage > 0.5 and reindexing onto the full daily index (value -> temperature_mean)")
     # ---- R09.3 (b) hourly route
     hourly = [c for c in calls_in(f.node) if unparse(c.func) == "compute_temperature_features"]
-    ok = len(hourly) == 1 and kwarg(hourly[0], "data_quality") is not None and unparse(kwarg(hourly[0], "data_quality")) == "True" and unparse(hourly[0].args[1]) == "temp_series"
+    ok = len(hourly) == 1 and (pc.has(f"_TF_ = compute_temperature_features({MI}, _TS_, data_quality=True)", bind=False)
+                               or pc.has(f"_TF_ = compute_temperature_features(meter_data_index={MI}, temperature_data=_TS_, data_quality=True)", bind=False))
     r3.require(ok, f"{f.key}|hourly-route", f.where(), f"{f.qualname}: hourly feeds must be grouped onto the meter days by compute_temperature_features(meter_index, temp_series, data_quality=True)")
-    inv = [s for s in cfg.stmts() if isinstance(s, ast.Assign) and unparse(s.targets[0]) == "invalid_temperature_rows"]
-    ok = False
-    if inv:
-        v = inv[0].value
-        if isinstance(v, ast.Compare) and isinstance(v.ops[0], ast.LtE) and unparse(v.comparators[0]) == "0.5":
-            frac = unparse(v.left)
-            ok = frac == "temperature_features.temperature_not_null / (temperature_features.temperature_not_null + temperature_features.temperature_null)"
-    r3.require(ok, f"{f.key}|hourly-50%-rule", f.where(inv[0]) if inv else f.where(), f"{f.qualname}: a meter day is invalid iff not_null / (not_null + null) <= 0.5")
+    frac_ok = pc.has("_INV_ = _TF_.temperature_not_null / (_TF_.temperature_not_null + _TF_.temperature_null) <= 0.5") or \
+        pc.has("_INV_ = _TF_['temperature_not_null'] / (_TF_['temperature_not_null'] + _TF_['temperature_null']) <= 0.5")
+    inv_st = pc.last if frac_ok else None
+    r3.require(frac_ok, f"{f.key}|hourly-50%-rule", f.where(inv_st) if inv_st is not None else f.where(), f"{f.qualname}: a meter day is invalid iff not_null / (not_null + null) <= 0.5")
+    INV = pc.name("_INV_", "invalid_temperature_rows")
     # "iff": every further definition / in-place widening of the mask (|=, &=, a second assignment, .loc stores) makes days
     # with more than half of their readings present come out missing (or the reverse)
     extra = []
     for s in cfg.stmts():
-        if s in inv[:1]:
+        if s is inv_st:
             continue
         tgt = None
         if isinstance(s, ast.AugAssign):
@@ -72,29 +84,27 @@ def _analyse_sibling(chk, r1, r2, r3, f: FuncInfo, br) -> Dict[str, object]:
         base = tgt
         while isinstance(base, (ast.Subscript, ast.Attribute)):
             base = base.value
-        if isinstance(base, ast.Name) and base.id == "invalid_temperature_rows":
+        if isinstance(base, ast.Name) and base.id == INV:
             extra.append(s)
     for s in extra:
         r3.require(False, f"{f.key}|hourly-50%-rule:extra-term", f.where(s),
                    f"{f.qualname}: `{unparse(s)[:110]}` widens/redefines the invalid-day mask beyond not_null / (not_null + null) <= 0.5: a day with more than half of its readings present "
                    f"(e.g. 12 of the 23 readings of a spring-forward day against a median of 24) is blanked", sample={"function": f.qualname, "statement": unparse(s)[:160]})
     r3.inst(f"{f.key}|invalid-mask-definitions={1 + len(extra)}")
-    blank = [s for s in cfg.stmts() if isinstance(s, ast.Assign) and isinstance(s.targets[0], ast.Subscript) and "invalid_temperature_rows" in unparse(s.targets[0]) and unparse(s.value) == "np.nan"]
-    def _sel_ok(t):
-        sl = t.slice
-        return isinstance(sl, ast.Tuple) and len(sl.elts) == 2 and isinstance(sl.elts[0], ast.Name) and sl.elts[0].id == "invalid_temperature_rows" and const_str(sl.elts[1]) == "temperature_mean"
-    r3.require(len(blank) == 1 and _sel_ok(blank[0].targets[0]), f"{f.key}|hourly-blank", f.where(), f"{f.qualname}: exactly the invalid meter days (row selector `invalid_temperature_rows`, nothing or-ed/and-ed to it) must have temperature_mean set to NaN")
+    blank = [s for s in cfg.stmts() if isinstance(s, ast.Assign) and isinstance(s.targets[0], ast.Subscript) and unparse(s.value) in ("np.nan", "float('nan')", "numpy.nan")
+             and "temperature_mean" in unparse(s.targets[0])]
+    r3.require(len(blank) == 1 and pc.has("_TF_.loc[_INV_, 'temperature_mean'] = np.nan", bind=False), f"{f.key}|hourly-blank", f.where(),
+               f"{f.qualname}: exactly the invalid meter days (row selector = the invalid-day mask, nothing or-ed/and-ed to it) must have temperature_mean set to NaN")
     # ---- R09.2 frequency-kind typing of the count columns on the non-hourly route
     for s in cfg.stmts():
-        if isinstance(s, ast.Assign) and isinstance(s.targets[0], ast.Subscript) and unparse(s.targets[0].value) == "temperature_features" and const_str(s.targets[0].slice) in ("temperature_null", "temperature_not_null"):
+        if isinstance(s, ast.Assign) and isinstance(s.targets[0], ast.Subscript) and unparse(s.targets[0].value) == TF and const_str(s.targets[0].slice) in ("temperature_null", "temperature_not_null"):
             col = const_str(s.targets[0].slice)
-            src_raw = unparse(s.value).startswith("temp_series.")
-            # kinds of temperature_features at this statement: DAILY if any reaching definition derives from as_freq(..., 'D')
+            src_raw = unparse(s.value).startswith(TS + ".")
+            # kinds of the frame at this statement: DAILY if any reaching definition derives from as_freq(..., 'D')
             daily = False
-            for d in rd.reaching(s, "temperature_features"):
+            for d in rd.reaching(s, TF):
                 v = rd.value_of(d)
-                ds = rd.def_stmt(d)
-                if v is not None and ("as_freq" in unparse(v) or (".reindex(temperature_features.index)" in unparse(v))):
+                if v is not None and ("as_freq" in unparse(v) or (f".reindex({TF}.index)" in unparse(v))):
                     daily = True
                 elif v is not None and "drop(" in unparse(v):
                     daily = True
@@ -127,10 +137,17 @@ def run(chk):
     r4.require(sd == sb, "siblings|daily~billing _compute_temperature_features", b.where(), f"the two implementations differ in their coverage masks: {sd} vs {sb}")
     # hourly-route aggregator table in features.compute_temperature_features
     ctf = chk.repo.func(FEAT, "compute_temperature_features")
-    t = unparse(ctf.node)
-    r3.require("[('not_null', 'count'), ('null', lambda x: x.isnull().sum())]" in t, f"{ctf.key}|count-aggregators", ctf.where(), "present readings must be counted with `count`, absent ones with isnull().sum()")
-    r3.require("('temp', 'not_null'): 'temperature_not_null'" in t and "('temp', 'null'): 'temperature_null'" in t, f"{ctf.key}|count-renames", ctf.where(), "the count columns must be renamed to temperature_not_null / temperature_null (not swapped)")
-    r3.require("temp_agg_funcs.extend([('mean', 'mean')])" in t and "('temp', 'mean'): 'temperature_mean'" in t, f"{ctf.key}|mean-aggregator", ctf.where(), "the day's temperature must be aggregated with mean and named temperature_mean")
-    r3.require("temp_groups = _matching_groups(meter_data_index, temp_df, tolerance)" in t and "temp_groups.agg({'temp': temp_agg_funcs})" in t, f"{ctf.key}|grouped-onto-meter-index", ctf.where(), "readings must be grouped onto the meter index before aggregating")
-    r3.require("n_hours_dropped=df.temperature_mean.isnull().astype(int)" in t and "n_hours_kept=df.temperature_mean.notnull().astype(int)" in t and "temperature_null=df.n_hours_dropped" in t and "temperature_not_null=df.n_hours_kept" in t,
-               f"{ctf.key}|hourly-fast-route-counts", ctf.where(), "hourly fast route: null / not-null flags must feed temperature_null / temperature_not_null respectively")
+    cp = PatCtx(ctf.node)
+    r3.require(cp.has("_AGG_.extend([('not_null', 'count'), ('null', lambda x: x.isnull().sum())])"), f"{ctf.key}|count-aggregators", ctf.where(), "present readings must be counted with `count`, absent ones with isnull().sum()")
+    r3.require(cp.has("_REN_.update({('temp', 'not_null'): 'temperature_not_null', ('temp', 'null'): 'temperature_null'})") or
+               cp.has("_REN_.update({('temp', 'null'): 'temperature_null', ('temp', 'not_null'): 'temperature_not_null'})"), f"{ctf.key}|count-renames", ctf.where(),
+               "the count columns must be renamed to temperature_not_null / temperature_null (not swapped)")
+    r3.require(cp.has("_AGG_.extend([('mean', 'mean')])", bind=False) and cp.has("_REN_.update({('temp', 'mean'): 'temperature_mean'})", bind=False), f"{ctf.key}|mean-aggregator", ctf.where(),
+               "the day's temperature must be aggregated with mean and named temperature_mean")
+    MIDX, TDATA = ctf.params[0], ctf.params[1]
+    r3.require(cp.has(f"_AGGD_ = _matching_groups({MIDX}, {TDATA}.to_frame('temp'), tolerance).agg({{'temp': _AGG_}})"), f"{ctf.key}|grouped-onto-meter-index", ctf.where(),
+               "readings must be grouped onto the meter index (merge_asof groups of the raw readings, column `temp`) before aggregating with the collected aggregators")
+    r3.require(cp.has("_DF_ = pd.concat([__, _AGGD_], axis=1).rename(columns=_REN_)"), f"{ctf.key}|renames-applied", ctf.where(), "the aggregated columns must be renamed through the collected rename table")
+    ok = cp.has("_H_ = _H_.assign(n_hours_dropped=_H_.temperature_mean.isnull().astype(int), n_hours_kept=_H_.temperature_mean.notnull().astype(int))") and \
+        cp.has("_H_ = _H_.assign(temperature_null=_H_.n_hours_dropped, temperature_not_null=_H_.n_hours_kept)", bind=False)
+    r3.require(ok, f"{ctf.key}|hourly-fast-route-counts", ctf.where(), "hourly fast route: null / not-null flags must feed temperature_null / temperature_not_null respectively")
